@@ -74,7 +74,12 @@ fn main() -> std::io::Result<()> {
     // See https://github.com/dandavison/delta/issues/681
     ctrlc::set_handler(|| {})
         .unwrap_or_else(|err| eprintln!("Failed to set ctrl-c handler: {err}"));
-    let exit_code = run_app(std::env::args_os().collect::<Vec<_>>(), None)?;
+    let exit_code = match run_app(std::env::args_os().collect::<Vec<_>>(), None) {
+        // The reader (pager, closed pipe) went away while e.g. --help, --version or
+        // --show-config output was written: stop quietly, as for the main output.
+        Err(error) if error.kind() == ErrorKind::BrokenPipe => 0,
+        result => result?,
+    };
     // when you call process::exit, no drop impls are called, so we want to do it only once, here
     process::exit(exit_code);
 }
